@@ -75,9 +75,7 @@ func Exhaustive(col *collector, budgetSec int) (states int, cases int) {
 					others = append(others, ips[i])
 				case 2:
 					if len(req) == 0 {
-						if len(held) >= 1 {
-							ok = false // several addresses without a request: the known finding, see corpus
-						}
+						// several addresses without a request: filter and bind use the lowest one
 					} else if !inReq(ips[i]) {
 						ok = false // an address of the key outside the request behaves like another pod's
 					}
